@@ -100,7 +100,9 @@ def oracle(lines, recs, im):
                 req = {w[0].upper(): Fraction(w[2:]) for w in ws[1:] if w[1] == "=" and w[0] in "xyz" and w[2:] != "-"}
                 cur = {a: (pos[a] or 0) for a in "XYZ"}
                 tgt = {a: (cur[a] + req.get(a, 0)) if rel else req.get(a, cur[a]) for a in "XYZ"}
-                if axes_b is None or all(axes_b[0][j] <= tgt[a] <= axes_b[1][j] for j, a in enumerate("XYZ")):
+                # (off-grid streams: the position is reconstructed from rounded words, so only a target inside the box by
+                # more than the slack proves that the refusal was wrong)
+                if axes_b is None or all(axes_b[0][j] + slack <= tgt[a] <= axes_b[1][j] - slack for j, a in enumerate("XYZ")):
                     out.append((i, f"`{ln}` rejected although its target {tgt} is inside the box {axes_b}", "rejected-inside"))
             except ValueError:
                 pass
